@@ -1,5 +1,7 @@
 import MesaModel.Gen.FnLegacy
 import MesaModel.Proofs.LegacyOrth
+import MesaModel.Proofs.LegacySet
+import MesaModel.Proofs.Legacy
 /-!
 Equivalence of the definitions GENERATED from mesa/space.py (`Gen/FnLegacy.lean`, rewritten by `harness/py2lean.py` on
 every check) with the hand-written model `Model/Legacy.lean` / `Model/LegacyNbhd.lean` (C09, C08).
@@ -160,3 +162,458 @@ theorem C09_orth_spec_generated (d : Dim) (hw : 0 < d.w) (hh : 0 < d.h) (k : NKe
   | ok v =>
     simp [getNbhd, hn, errConv] at h
     rw [h.1]
+
+/-! ### the grid mutators (`is_cell_empty`, `SingleGrid.place_agent`, `SingleGrid.remove_agent`)
+
+The generated definitions work on a concrete state record (`GenFn.LSpace`: `_grid` and `_empty_mask` as lists of rows, `_empties`
+as the list of the set's members, the agent as `GenFn.LAgent` = id + `pos`) and return the tables they leave behind.  The tie to the
+hand-written model is a REFINEMENT through the explicit abstraction function `absSingle`: the model grid of the state the generated
+function returns is the state the model's `place` / `remove` returns on the model grid of the state before (equal as records for
+`place`; for `remove` equal up to the membership of `empties`, `Grid.sameSets`: the model keeps the set sorted, the translation in
+insertion order).  Guards: the tables have the grid's shape (`Shaped`, what `__init__` builds) and the touched coordinate is inside
+the grid (`inGrid`) — outside it Python's `_grid[x][y]` wraps negative indices / raises IndexError, which is outside the subset. -/
+
+theorem get2_set2 {α : Type} [Inhabited α] (t : List (List α)) (i j i' j' : Int) (v : α)
+    (hi : 0 ≤ i) (hj : 0 ≤ j) (hi' : 0 ≤ i') (hj' : 0 ≤ j')
+    (h1 : i.toNat < t.length) (h2 : j.toNat < (t.getD i.toNat []).length) :
+    Py.get2 (Py.set2 t i j v) i' j' = if i' = i ∧ j' = j then v else Py.get2 t i' j' := by
+  unfold Py.get2 Py.set2
+  by_cases hii : i' = i
+  · subst hii
+    by_cases hjj : j' = j
+    · subst hjj
+      simp [List.getD_eq_getElem?_getD, List.getElem?_set, h1] at h2 ⊢
+      simp [h2]
+    · have : j.toNat ≠ j'.toNat := by omega
+      simp [List.getD_eq_getElem?_getD, h1, hjj, this]
+  · have : i.toNat ≠ i'.toNat := by omega
+    simp [List.getD_eq_getElem?_getD, hii, this]
+
+/-- a `w × h` table: `w` rows of length `h` -/
+def Table {α : Type} (t : List (List α)) (w h : Int) : Prop :=
+  t.length = w.toNat ∧ ∀ i : Nat, i < w.toNat → (t.getD i []).length = h.toNat
+
+theorem Table.set2 {α : Type} {t : List (List α)} {w h : Int} (ht : Table t w h) (i j : Int) (v : α) :
+    Table (Py.set2 t i j v) w h := by
+  refine ⟨by simp [Py.set2, ht.1], fun k hk => ?_⟩
+  unfold Py.set2
+  by_cases hki : i.toNat = k
+  · subst hki
+    have := ht.2 _ hk
+    simp [List.getD_eq_getElem?_getD, ht.1, hk] at this ⊢
+    exact this
+  · have := ht.2 _ hk
+    simpa [List.getD_eq_getElem?_getD, hki] using this
+
+def inGrid (w h : Int) (p : Coord) : Prop := 0 ≤ p.1 ∧ p.1 < w ∧ 0 ≤ p.2 ∧ p.2 < h
+instance (w h : Int) (p : Coord) : Decidable (inGrid w h p) := by unfold inGrid; infer_instance
+
+/-- a table read as a total function of the coordinate (`d` outside the grid) -/
+def tabAbs {α β : Type} [Inhabited α] (w h : Int) (f : α → β) (d : β) (t : List (List α)) : Coord → β :=
+  fun p => if inGrid w h p then f (Py.get2 t p.1 p.2) else d
+
+theorem tabAbs_set2 {α β : Type} [Inhabited α] (w h : Int) (f : α → β) (d : β) (t : List (List α)) (ht : Table t w h)
+    (p : Coord) (hp : inGrid w h p) (v : α) :
+    tabAbs w h f d (Py.set2 t p.1 p.2 v) = upd (tabAbs w h f d t) p (f v) := by
+  obtain ⟨h1, h2, h3, h4⟩ := hp
+  funext q
+  unfold upd tabAbs
+  by_cases hq : inGrid w h q
+  · obtain ⟨q1, q2, q3, q4⟩ := hq
+    have hlen : p.1.toNat < t.length := by rw [ht.1]; omega
+    have hrow : p.2.toNat < (t.getD p.1.toNat []).length := by rw [ht.2 _ (by omega)]; omega
+    rw [get2_set2 _ _ _ _ _ _ h1 h3 q1 q3 hlen hrow]
+    by_cases hqp : q = p
+    · subst hqp; simp [inGrid, q1, q2, q3, q4]
+    · have : ¬ (q.1 = p.1 ∧ q.2 = p.2) := fun h => hqp (Prod.ext h.1 h.2)
+      simp [hqp, this, inGrid, q1, q2, q3, q4]
+  · have hqp : q ≠ p := fun h => hq (h ▸ ⟨h1, h2, h3, h4⟩)
+    simp [hqp, hq]
+
+/-- the cell of a SingleGrid (`None` or the agent, named by its `unique_id`) as the model's content list -/
+def cellAbs (c : Option Int) : List Aid := match c with | none => [] | some a => [a.toNat]
+
+/-- THE ABSTRACTION FUNCTION: the model grid a SingleGrid state record stands for (`posf` = every agent's `pos`; `cutoff` is
+    not read by the mutators) -/
+def absSingle (s : GenFn.LSpace) (cutoff : Nat) (posf : Aid → Option Coord) : Grid :=
+  { w := s.width, h := s.height, torus := s.torus, multi := false, cutoff := cutoff,
+    content := tabAbs s.width s.height cellAbs [] s._grid,
+    pos := posf,
+    empties := if s._empties_built then some s._empties else none,
+    mask := tabAbs s.width s.height id true s._empty_mask }
+
+/-- the state record after a generated mutator returned these tables -/
+def GenFn.LSpace.put (s : GenFn.LSpace) (r : List (List (Option Int)) × List (Int × Int) × List (List Bool) × Option (Int × Int)) :
+    GenFn.LSpace :=
+  { s with _grid := r.1, _empties := r.2.1, _empty_mask := r.2.2.1 }
+
+/-- shape invariant of the state record (what `_Grid.__init__` / `_PropertyGrid.__init__` build) -/
+def Shaped (s : GenFn.LSpace) : Prop := Table s._grid s.width s.height ∧ Table s._empty_mask s.width s.height
+
+/-- the agent object the generated functions are handed: agent `a` of the model with its current `pos` -/
+def lagent (posf : Aid → Option Coord) (a : Aid) : GenFn.LAgent := { unique_id := (a : Int), pos := posf a }
+
+def resConv (r : Except Py.Err Unit) : Res := match r with | .ok _ => .ok | .error _ => .err .full
+
+theorem updA_self {β : Type} (f : Aid → β) (a : Aid) : updA f a (f a) = f := by
+  funext b; unfold updA; split <;> simp_all
+
+/-- `_Grid.is_cell_empty` (with `_Grid.default_val`) as generated = the model's `isCellEmpty`, inside the grid -/
+theorem C08_gen_is_cell_empty_eq_model (s : GenFn.LSpace) (cutoff : Nat) (posf : Aid → Option Coord) (p : Coord)
+    (hp : inGrid s.width s.height p) :
+    GenFn.is_cell_empty s p = (absSingle s cutoff posf).isCellEmpty p := by
+  obtain ⟨x, y⟩ := p
+  simp only [GenFn.is_cell_empty, GenFn.default_val, Grid.isCellEmpty, absSingle, tabAbs, hp, if_true]
+  cases Py.get2 s._grid x y <;> rfl
+
+/-- `is_cell_empty` only reads `_grid`: calling it on `{ self with _grid := <the current table> }` is calling it on that table -/
+theorem is_cell_empty_congr (s t : GenFn.LSpace) (p : Coord) (h : t._grid = s._grid) :
+    GenFn.is_cell_empty t p = GenFn.is_cell_empty s p := by
+  obtain ⟨x, y⟩ := p
+  simp only [GenFn.is_cell_empty, h]
+
+theorem is_cell_empty_self (s : GenFn.LSpace) (p : Coord) :
+    GenFn.is_cell_empty { s with _grid := s._grid } p = GenFn.is_cell_empty s p := is_cell_empty_congr s _ p rfl
+
+/-- `SingleGrid.place_agent` as generated refines the model's `place`: same model state afterwards, same outcome -/
+theorem C08_gen_place_agent_eq_model (s : GenFn.LSpace) (cutoff : Nat) (posf : Aid → Option Coord) (a : Aid) (p : Coord)
+    (hs : Shaped s) (hp : inGrid s.width s.height p) :
+    absSingle (s.put (GenFn.place_agent s (lagent posf a) p).2) cutoff (updA posf a (GenFn.place_agent s (lagent posf a) p).2.2.2.2)
+        = ((absSingle s cutoff posf).place a p).1
+      ∧ resConv (GenFn.place_agent s (lagent posf a) p).1 = ((absSingle s cutoff posf).place a p).2 := by
+  have he := C08_gen_is_cell_empty_eq_model s cutoff posf p hp
+  unfold GenFn.place_agent Grid.place
+  simp only [show (absSingle s cutoff posf).multi = false from rfl, Bool.false_eq_true, if_false]
+  rw [← he]
+  rw [is_cell_empty_self]
+  cases hc : GenFn.is_cell_empty s p
+  · simp only [Bool.not_false, Bool.false_eq_true, if_true, if_false, resConv, GenFn.LSpace.put, lagent, updA_self, and_true]
+  · obtain ⟨x, y⟩ := p
+    simp only [Bool.not_true, Bool.false_eq_true, if_true, if_false, resConv, GenFn.LSpace.put, lagent, and_true]
+    simp only [absSingle]
+    rw [tabAbs_set2 _ _ _ _ _ hs.1 (x, y) hp, tabAbs_set2 _ _ _ _ _ hs.2 (x, y) hp]
+    cases s._empties_built <;> simp [cellAbs, Py.setDiscard, sdiscard, bne]
+
+/-- two optional coordinate sets with the same members (`None` = not built) -/
+def sameMembers (a b : Option (List Coord)) : Prop :=
+  match a, b with
+  | none, none => True
+  | some x, some y => ∀ q, q ∈ x ↔ q ∈ y
+  | _, _ => False
+
+/-- two model grids that are equal except for the representation of the `empties` set, which has the same members -/
+def Grid.sameSets (g1 g2 : Grid) : Prop :=
+  ({ g1 with empties := none } : Grid) = { g2 with empties := none } ∧ sameMembers g1.empties g2.empties
+
+theorem Grid.sameSets_refl (g : Grid) : g.sameSets g := by
+  refine ⟨rfl, ?_⟩
+  unfold sameMembers
+  cases g.empties <;> simp
+
+theorem mem_setInsert (l : List Coord) (p q : Coord) : q ∈ Py.setInsert l p ↔ q = p ∨ q ∈ l := by
+  unfold Py.setInsert
+  by_cases h : l.contains p
+  · have hp : p ∈ l := by simpa using h
+    simp only [h, if_true]
+    constructor
+    · exact Or.inr
+    · rintro (rfl | h') <;> assumption
+  · simp only [h, Bool.false_eq_true, if_false, List.mem_append, List.mem_singleton]
+    exact Or.comm
+
+/-- `SingleGrid.remove_agent` as generated refines the model's `remove` (the agent's `pos`, if any, inside the grid):
+    same model state afterwards up to the order of the `empties` set; the call never raises -/
+theorem C08_gen_remove_agent_eq_model (s : GenFn.LSpace) (cutoff : Nat) (posf : Aid → Option Coord) (a : Aid)
+    (hs : Shaped s) (hp : ∀ p, posf a = some p → inGrid s.width s.height p) :
+    (absSingle (s.put (GenFn.remove_agent s (lagent posf a))) cutoff (updA posf a (GenFn.remove_agent s (lagent posf a)).2.2.2)).sameSets
+        ((absSingle s cutoff posf).remove a).1
+      ∧ ((absSingle s cutoff posf).remove a).2 = .ok := by
+  unfold GenFn.remove_agent Grid.remove
+  simp only [show (absSingle s cutoff posf).multi = false from rfl, Bool.false_eq_true, if_false,
+    show (absSingle s cutoff posf).pos a = posf a from rfl, lagent]
+  cases hpa : posf a with
+  | none =>
+    simp only [GenFn.LSpace.put, and_true]
+    rw [← hpa, updA_self]
+    exact Grid.sameSets_refl _
+  | some p =>
+    have hin := hp p hpa
+    obtain ⟨x, y⟩ := p
+    simp only [GenFn.LSpace.put, GenFn.default_val, and_true]
+    simp only [absSingle]
+    rw [tabAbs_set2 _ _ _ _ _ hs.1 (x, y) hin, tabAbs_set2 _ _ _ _ _ hs.2 (x, y) hin]
+    refine ⟨by simp [cellAbs], ?_⟩
+    cases s._empties_built
+    · simp [sameMembers]
+    · simp only [sameMembers, if_true, Option.map_some]
+      intro q
+      rw [mem_setInsert, mem_sadd]
+
+/-- C08 over the generated text: after an accepted `place_agent` at a coordinate of the grid the four views agree at the touched
+    cell — `agent.pos` is the cell, the cell holds the agent, the cell is not in `_empties`, `_empty_mask` is False there -/
+theorem C08_place_agent_views_generated (s : GenFn.LSpace) (ag : GenFn.LAgent) (p : Coord)
+    (hs : Shaped s) (hp : inGrid s.width s.height p) (he : GenFn.is_cell_empty s p = true) :
+    let r := GenFn.place_agent s ag p
+    r.1 = .ok () ∧ r.2.2.2.2 = some p ∧ Py.get2 r.2.1 p.1 p.2 = some ag.unique_id
+      ∧ (s._empties_built = true → p ∉ r.2.2.1) ∧ Py.get2 r.2.2.2.1 p.1 p.2 = false := by
+  obtain ⟨h1, h2, h3, h4⟩ := hp
+  have hg : p.1.toNat < s._grid.length := by rw [hs.1.1]; omega
+  have hgr : p.2.toNat < (s._grid.getD p.1.toNat []).length := by rw [hs.1.2 _ (by omega)]; omega
+  have hm : p.1.toNat < s._empty_mask.length := by rw [hs.2.1]; omega
+  have hmr : p.2.toNat < (s._empty_mask.getD p.1.toNat []).length := by rw [hs.2.2 _ (by omega)]; omega
+  obtain ⟨x, y⟩ := p
+  simp only [GenFn.place_agent, he, Bool.not_true, Bool.false_eq_true, if_true, if_false]
+  refine ⟨trivial, trivial, ?_, ?_, ?_⟩
+  · rw [get2_set2 _ _ _ _ _ _ h1 h3 h1 h3 hg hgr]; simp
+  · intro hb; simp [hb, Py.setDiscard]
+  · rw [get2_set2 _ _ _ _ _ _ h1 h3 h1 h3 hm hmr]; simp
+
+/-- C08 over the generated text: after `remove_agent` of an agent standing on a coordinate of the grid — `agent.pos` is None,
+    the cell is empty again, the cell is in `_empties` (if built), `_empty_mask` is True there -/
+theorem C08_remove_agent_views_generated (s : GenFn.LSpace) (ag : GenFn.LAgent) (p : Coord)
+    (hs : Shaped s) (hp : inGrid s.width s.height p) (ha : ag.pos = some p) :
+    let r := GenFn.remove_agent s ag
+    r.2.2.2 = none ∧ GenFn.is_cell_empty (s.put r) p = true
+      ∧ (s._empties_built = true → p ∈ r.2.1) ∧ Py.get2 r.2.2.1 p.1 p.2 = true := by
+  obtain ⟨h1, h2, h3, h4⟩ := hp
+  have hg : p.1.toNat < s._grid.length := by rw [hs.1.1]; omega
+  have hgr : p.2.toNat < (s._grid.getD p.1.toNat []).length := by rw [hs.1.2 _ (by omega)]; omega
+  have hm : p.1.toNat < s._empty_mask.length := by rw [hs.2.1]; omega
+  have hmr : p.2.toNat < (s._empty_mask.getD p.1.toNat []).length := by rw [hs.2.2 _ (by omega)]; omega
+  obtain ⟨x, y⟩ := p
+  simp only [GenFn.remove_agent, ha, GenFn.is_cell_empty, GenFn.LSpace.put, GenFn.default_val]
+  refine ⟨trivial, ?_, ?_, ?_⟩
+  · rw [get2_set2 _ _ _ _ _ _ h1 h3 h1 h3 hg hgr]; simp
+  · intro hb; simp only [hb, if_true]; rw [mem_setInsert]; exact Or.inl rfl
+  · rw [get2_set2 _ _ _ _ _ _ h1 h3 h1 h3 hm hmr]; simp
+
+/-- C18 over the generated text: `place_agent` on an occupied cell raises and hands back every table and `agent.pos` untouched -/
+theorem C18_place_agent_rejected_unchanged_generated (s : GenFn.LSpace) (ag : GenFn.LAgent) (p : Coord)
+    (he : GenFn.is_cell_empty s p = false) :
+    GenFn.place_agent s ag p = (.error Py.Err.Exception, s._grid, s._empties, s._empty_mask, ag.pos) := by
+  simp only [GenFn.place_agent, he, Bool.not_false, Bool.false_eq_true, if_true, if_false]
+
+/-! ### `_Grid.move_agent` on a SingleGrid and `SingleGrid.move_agent` (torus_adj, remove, place chained) -/
+
+theorem updA_updA {β : Type} (f : Aid → β) (a : Aid) (x y : β) : updA (updA f a x) a y = updA f a y := by
+  funext b; unfold updA; split <;> rfl
+
+/-- `torus_adj` reads the geometry only -/
+theorem torus_adj_congr (s t : GenFn.LGrid) (p : Coord) (h1 : s.width = t.width) (h2 : s.height = t.height) (h3 : s.torus = t.torus) :
+    GenFn.torus_adj s p = GenFn.torus_adj t p := by
+  obtain ⟨x, y⟩ := p
+  simp only [GenFn.torus_adj, GenFn.out_of_bounds, h1, h2, h3]
+
+theorem Shaped_put_set2 (s : GenFn.LSpace) (hs : Shaped s) (i j i' j' : Int) (v : Option Int) (b : Bool) (e : List (Int × Int))
+    (ap : Option (Int × Int)) : Shaped (s.put (Py.set2 s._grid i j v, e, Py.set2 s._empty_mask i' j' b, ap)) :=
+  ⟨hs.1.set2 _ _ _, hs.2.set2 _ _ _⟩
+
+theorem Shaped_remove (s : GenFn.LSpace) (hs : Shaped s) (ag : GenFn.LAgent) : Shaped (s.put (GenFn.remove_agent s ag)) := by
+  unfold GenFn.remove_agent
+  cases ag.pos with
+  | none => exact hs
+  | some p => obtain ⟨x, y⟩ := p; exact Shaped_put_set2 s hs _ _ _ _ _ _ _ _
+
+/-- the model's `place` does not look at the representation of `empties` -/
+theorem place_sameSets (g1 g2 : Grid) (h : g1.sameSets g2) (a : Aid) (p : Coord) :
+    (g1.place a p).1.sameSets (g2.place a p).1 ∧ (g1.place a p).2 = (g2.place a p).2 := by
+  obtain ⟨h1, h2⟩ := h
+  have h1' := h1
+  simp only [Grid.mk.injEq] at h1'
+  obtain ⟨hw, hh, ht, hm, hcu, hc, hp, _, hk⟩ := h1'
+  have he : sameMembers (g1.empties.map (sdiscard p)) (g2.empties.map (sdiscard p)) := by
+    revert h2
+    cases g1.empties <;> cases g2.empties <;> simp only [sameMembers, Option.map_some, Option.map_none, imp_self]
+    intro h q; simp only [mem_sdiscard, h q]
+  unfold Grid.place Grid.isCellEmpty
+  simp only [hc, hm, hp, hk, hw, hh, ht, hcu]
+  refine ⟨?_, ?_⟩
+  · split
+    · split
+      · exact ⟨rfl, he⟩
+      · exact ⟨h1, h2⟩
+    · split
+      · exact ⟨rfl, he⟩
+      · exact ⟨h1, h2⟩
+  · split <;> split <;> rfl
+
+theorem sameSets_trans {g1 g2 g3 : Grid} (h : g1.sameSets g2) (h' : g2.sameSets g3) : g1.sameSets g3 := by
+  refine ⟨h.1.trans h'.1, ?_⟩
+  have a := h.2; have b := h'.2
+  revert a b
+  cases g1.empties <;> cases g2.empties <;> cases g3.empties <;> simp only [sameMembers, imp_self, implies_true, false_imp_iff, true_imp_iff]
+  · intro a b q; exact (a q).trans (b q)
+
+theorem abs_dims (s : GenFn.LSpace) (cutoff : Nat) (posf : Aid → Option Coord) :
+    (absSingle s cutoff posf).w = s.width ∧ (absSingle s cutoff posf).h = s.height ∧ (absSingle s cutoff posf).torus = s.torus :=
+  ⟨rfl, rfl, rfl⟩
+
+/-- the generated `torus_adj`, called on the geometry of a state record, is the model's `torusAdj` of the grid it stands for -/
+theorem gen_torus_adj_abs (s : GenFn.LSpace) (cutoff : Nat) (posf : Aid → Option Coord) (hw : 0 < s.width) (hh : 0 < s.height) (p : Coord) :
+    GenFn.torus_adj ({ width := s.width, height := s.height, torus := s.torus, _neighborhood_cache := s._neighborhood_cache } : GenFn.LGrid) p
+      = errConv ((absSingle s cutoff posf).torusAdj p) := by
+  rw [← C08_gen_torus_adj_eq_model (absSingle s cutoff posf) hw hh [] p]
+  exact torus_adj_congr _ _ p rfl rfl rfl
+
+/-- remove then place, as `_Grid.move_agent` chains them, refines the model's remove then place -/
+theorem gen_remove_place (s : GenFn.LSpace) (cutoff : Nat) (posf : Aid → Option Coord) (a : Aid) (q : Coord)
+    (hs : Shaped s) (hq : inGrid s.width s.height q) (hpa : ∀ p, posf a = some p → inGrid s.width s.height p) :
+    let r1 := GenFn.remove_agent s (lagent posf a)
+    let r2 := GenFn.place_agent (s.put r1) (lagent (updA posf a r1.2.2.2) a) q
+    (absSingle ((s.put r1).put r2.2) cutoff (updA posf a r2.2.2.2.2)).sameSets (((absSingle s cutoff posf).remove a).1.place a q).1
+      ∧ resConv r2.1 = (((absSingle s cutoff posf).remove a).1.place a q).2 := by
+  intro r1 r2
+  have hrem := C08_gen_remove_agent_eq_model s cutoff posf a hs hpa
+  have hs1 : Shaped (s.put r1) := Shaped_remove s hs _
+  have hpl := C08_gen_place_agent_eq_model (s.put r1) cutoff (updA posf a r1.2.2.2) a q hs1 hq
+  have hcong := place_sameSets _ _ hrem.1 a q
+  rw [updA_updA] at hpl
+  refine ⟨?_, hpl.2.trans hcong.2⟩
+  have := hpl.1
+  exact this ▸ hcong.1
+
+/-- how a generated caller hands on the result of a raising mutator: same tables, same outcome -/
+def rewrap {T : Type} (x : Except Py.Err Unit × T) : Except Py.Err Unit × T :=
+  match x.1 with
+  | .error e => (.error e, x.2)
+  | .ok _ => (.ok (), x.2)
+
+theorem rewrap_eq {T : Type} (x : Except Py.Err Unit × T) : rewrap x = x := by
+  obtain ⟨r, t⟩ := x
+  cases r <;> rfl
+
+theorem resConv_ok (r : Except Py.Err Unit) (m : Res) (h : resConv r = m) : r = .ok () ↔ m = .ok := by
+  subst h; cases r <;> simp [resConv]
+
+theorem moveBase_ok_eq (g : Grid) (a : Aid) (p q : Coord) (ht : g.torusAdj p = .ok q) (hr : (g.remove a).2 = .ok) :
+    g.moveBase a p = (g.remove a).1.place a q := by
+  unfold Grid.moveBase
+  rw [ht]
+  rcases hrm : g.remove a with ⟨g1, r⟩
+  rw [hrm] at hr
+  simp only at hr
+  subst hr
+  rfl
+
+theorem moveBase_err_eq (g : Grid) (a : Aid) (p : Coord) (e : Err) (ht : g.torusAdj p = .error e) :
+    g.moveBase a p = (g, .err e) := by
+  unfold Grid.moveBase
+  rw [ht]
+
+theorem C08_gen_move_agent_base_eq_model (s : GenFn.LSpace) (cutoff : Nat) (posf : Aid → Option Coord) (a : Aid) (p : Coord)
+    (hs : Shaped s) (hw : 0 < s.width) (hh : 0 < s.height) (hpa : ∀ q, posf a = some q → inGrid s.width s.height q) :
+    (absSingle (s.put (GenFn.move_agent_base s (lagent posf a) p).2) cutoff
+        (updA posf a (GenFn.move_agent_base s (lagent posf a) p).2.2.2.2)).sameSets ((absSingle s cutoff posf).moveBase a p).1
+      ∧ ((GenFn.move_agent_base s (lagent posf a) p).1 = .ok () ↔ ((absSingle s cutoff posf).moveBase a p).2 = .ok) := by
+  unfold GenFn.move_agent_base
+  simp only [gen_torus_adj_abs s cutoff posf hw hh]
+  cases ht : (absSingle s cutoff posf).torusAdj p with
+  | error e =>
+    rw [moveBase_err_eq _ a p e ht]
+    simp only [errConv, GenFn.LSpace.put, lagent, updA_self]
+    exact ⟨Grid.sameSets_refl _, by simp⟩
+  | ok q =>
+    have hq : inGrid s.width s.height q := (torusAdj_ok _ hw hh p q ht).1
+    obtain ⟨h1, h2⟩ := gen_remove_place s cutoff posf a q hs hq hpa
+    have hr := (C08_gen_remove_agent_eq_model s cutoff posf a hs hpa).2
+    simp only [lagent, updA_same] at h1 h2
+    simp only [errConv]
+    rw [moveBase_ok_eq _ a p q ht hr]
+    change (absSingle (s.put (rewrap (GenFn.place_agent (s.put (GenFn.remove_agent s (lagent posf a)))
+        { unique_id := (a : Int), pos := (GenFn.remove_agent s (lagent posf a)).2.2.2 } q)).2) cutoff
+        (updA posf a (rewrap (GenFn.place_agent (s.put (GenFn.remove_agent s (lagent posf a)))
+        { unique_id := (a : Int), pos := (GenFn.remove_agent s (lagent posf a)).2.2.2 } q)).2.2.2.2)).sameSets _
+      ∧ ((rewrap (GenFn.place_agent (s.put (GenFn.remove_agent s (lagent posf a)))
+        { unique_id := (a : Int), pos := (GenFn.remove_agent s (lagent posf a)).2.2.2 } q)).1 = .ok () ↔ _)
+    rw [rewrap_eq]
+    exact ⟨h1, resConv_ok _ _ h2⟩
+
+theorem move_single_ok_eq (g : Grid) (hm : g.multi = false) (a : Aid) (p q : Coord) (ht : g.torusAdj p = .ok q) :
+    g.move a p = if !g.isCellEmpty q && g.content q != [a] then (g, .err .full) else g.moveBase a q := by
+  unfold Grid.move
+  rw [ht]
+  simp only [hm, Bool.false_eq_true, if_false]
+
+theorem move_single_err_eq (g : Grid) (hm : g.multi = false) (a : Aid) (p : Coord) (e : Err) (ht : g.torusAdj p = .error e) :
+    g.move a p = (g, .err e) := by
+  unfold Grid.move
+  rw [ht]
+  simp only [hm, Bool.false_eq_true, if_false]
+
+/-- agent ids stored in the cell table are naturals (`unique_id` counts from 1; the model's `Aid` is `Nat`) -/
+def IdsNat (s : GenFn.LSpace) : Prop := ∀ x y b, Py.get2 s._grid x y = some b → 0 ≤ b
+
+theorem cell_ne_agent (c : Option Int) (a : Aid) (h : ∀ b, c = some b → 0 ≤ b) : (c != some (a : Int)) = (cellAbs c != [a]) := by
+  cases c with
+  | none => first | rfl | simp [cellAbs, bne]
+  | some b =>
+    have := h b rfl
+    rw [Bool.eq_iff_iff]
+    simp only [cellAbs, bne_iff_ne, ne_eq, Option.some.injEq, List.cons.injEq, and_true]
+    constructor
+    · intro h1 h2; apply h1; rw [← h2, Int.toNat_of_nonneg this]
+    · intro h1 h2; apply h1; rw [h2, Int.toNat_natCast]
+
+/-- `SingleGrid.move_agent` as generated refines the model's `move` of a SingleGrid -/
+theorem C08_gen_move_agent_eq_model (s : GenFn.LSpace) (cutoff : Nat) (posf : Aid → Option Coord) (a : Aid) (p : Coord)
+    (hs : Shaped s) (hid : IdsNat s) (hw : 0 < s.width) (hh : 0 < s.height) (hpa : ∀ q, posf a = some q → inGrid s.width s.height q) :
+    (absSingle (s.put (GenFn.move_agent s (lagent posf a) p).2) cutoff
+        (updA posf a (GenFn.move_agent s (lagent posf a) p).2.2.2.2)).sameSets ((absSingle s cutoff posf).move a p).1
+      ∧ ((GenFn.move_agent s (lagent posf a) p).1 = .ok () ↔ ((absSingle s cutoff posf).move a p).2 = .ok) := by
+  unfold GenFn.move_agent
+  simp only [gen_torus_adj_abs s cutoff posf hw hh]
+  cases ht : (absSingle s cutoff posf).torusAdj p with
+  | error e =>
+    rw [move_single_err_eq _ rfl a p e ht]
+    simp only [errConv, GenFn.LSpace.put, lagent, updA_self]
+    exact ⟨Grid.sameSets_refl _, by simp⟩
+  | ok q =>
+    have hq : inGrid s.width s.height q := (torusAdj_ok _ hw hh p q ht).1
+    have he := C08_gen_is_cell_empty_eq_model s cutoff posf q hq
+    have hc : (Py.get2 s._grid q.1 q.2 != some (a : Int)) = ((absSingle s cutoff posf).content q != [a]) := by
+      rw [cell_ne_agent _ a (hid q.1 q.2)]
+      simp only [absSingle, tabAbs, hq, if_true]
+    rw [move_single_ok_eq _ rfl a p q ht, ← he, ← hc]
+    obtain ⟨x, y⟩ := q
+    have hb := C08_gen_move_agent_base_eq_model s cutoff posf a (x, y) hs hw hh hpa
+    -- the two outcomes, independent of how the source spells the test
+    have hGo : (absSingle (s.put (rewrap (GenFn.move_agent_base s (lagent posf a) (x, y))).2) cutoff
+          (updA posf a (rewrap (GenFn.move_agent_base s (lagent posf a) (x, y))).2.2.2.2)).sameSets
+            ((absSingle s cutoff posf).moveBase a (x, y)).1
+        ∧ ((rewrap (GenFn.move_agent_base s (lagent posf a) (x, y))).1 = .ok () ↔ ((absSingle s cutoff posf).moveBase a (x, y)).2 = .ok) := by
+      rw [rewrap_eq]; exact hb
+    have hRej : (absSingle (s.put (s._grid, s._empties, s._empty_mask, (lagent posf a).pos)) cutoff
+          (updA posf a (lagent posf a).pos)).sameSets (absSingle s cutoff posf)
+        ∧ ((Except.error Py.Err.Exception : Except Py.Err Unit) = .ok () ↔ Res.err Err.full = Res.ok) :=
+      ⟨by simpa [lagent, updA_self, GenFn.LSpace.put] using Grid.sameSets_refl _, by simp⟩
+    simp only [errConv]
+    cases hE : GenFn.is_cell_empty s (x, y) <;> by_cases hN : Py.get2 s._grid x y = some (a : Int)
+    all_goals
+      have hN1 : (Py.get2 s._grid x y == some (a : Int)) = decide (Py.get2 s._grid x y = some (a : Int)) := by
+        rw [Bool.eq_iff_iff]; simp
+      have hN2 : (Py.get2 s._grid x y != some (a : Int)) = !decide (Py.get2 s._grid x y = some (a : Int)) := by
+        rw [bne, hN1]
+      simp only [lagent, hN1, hN2, hN, hE, beq_self_eq_true, bne_self_eq_false, decide_true, decide_false, Bool.not_true, Bool.not_false, Bool.and_true, Bool.and_false,
+        Bool.true_and, Bool.false_and, Bool.or_true, Bool.or_false, Bool.true_or, Bool.false_or, Bool.false_eq_true,
+        if_true, if_false]
+      first
+        | exact hGo
+        | exact hRej
+
+/-- C18 over the generated text: `SingleGrid.move_agent` to a cell occupied by ANOTHER agent (after the torus adjustment), or to a
+    coordinate `torus_adj` rejects, raises and hands back every table and `agent.pos` untouched -/
+theorem C18_move_agent_rejected_unchanged_generated (s : GenFn.LSpace) (ag : GenFn.LAgent) (p : Coord) :
+    (∀ q, GenFn.torus_adj ({ width := s.width, height := s.height, torus := s.torus, _neighborhood_cache := s._neighborhood_cache } : GenFn.LGrid) p = .ok q →
+        GenFn.is_cell_empty s q = false → Py.get2 s._grid q.1 q.2 ≠ some ag.unique_id →
+        GenFn.move_agent s ag p = (.error Py.Err.Exception, s._grid, s._empties, s._empty_mask, ag.pos))
+      ∧ (∀ e, GenFn.torus_adj ({ width := s.width, height := s.height, torus := s.torus, _neighborhood_cache := s._neighborhood_cache } : GenFn.LGrid) p = .error e →
+        GenFn.move_agent s ag p = (.error e, s._grid, s._empties, s._empty_mask, ag.pos)) := by
+  constructor
+  · intro q ht he hne
+    obtain ⟨x, y⟩ := q
+    have hb : (Py.get2 s._grid x y != some ag.unique_id) = true := by simpa using hne
+    have hb2 : (Py.get2 s._grid x y == some ag.unique_id) = false := by simpa using hne
+    simp only [GenFn.move_agent, ht, he, hb, hb2, Bool.not_false, Bool.not_true, Bool.and_self, Bool.or_self, Bool.or_false,
+      Bool.false_or, Bool.and_true, Bool.true_and, if_true]
+  · intro e ht
+    simp only [GenFn.move_agent, ht]
